@@ -1,8 +1,619 @@
-/- PyodaModel.DateArith — placeholder until the area is modelled. -/
-import PyodaModel.Prelude
+/-
+  PyodaModel.DateArith — date arithmetic and `Period.between` (area "DateArith", property C09).
+
+  Transcribed from
+    pyoda_time/fields/_fixed_length_date_period_field.py   (`addFixed`: same-month path, ±1-year path, day-number path)
+    pyoda_time/fields/_months_period_field.py, _years_period_field.py
+    pyoda_time/calendars/_regular_year_month_day_calculator.py   (`addMonthsRegular`, `monthsBetweenRegular`, `setYearRegular`)
+    pyoda_time/calendars/_hebrew_year_month_day_calculator.py    (`addMonthsHebrew`, `monthsBetweenHebrew`, `setYearHebrew`)
+    pyoda_time/calendars/_badi_year_month_day_calculator.py      (`addMonthsBadi`, `monthsBetweenBadi`, `setYearBadi`)
+    pyoda_time/_period.py   (`Period.between` for the four operand kinds, `normalize`, `to_duration`)
+  over the calendar model `Calc` of `PyodaModel/Calendar`.
+
+  Where the pinned code has a defect the *intended* behaviour is modelled (the check reports the defect):
+    * Badi `_add_months`: zero-based month index, so a multiple of 19 lands on month 19 of the previous year
+      (the code yields month 0);
+    * `Period.between(YearMonth, YearMonth, MONTHS)` reports months (the code reports them as years);
+    * regular `_add_months`: the year range is checked before the month length is looked up (the code looks up
+      first, which is a `KeyError` for Um Al Qura two or more years outside its table);
+    * Hebrew `_months_between`: a probe `start + k months` that leaves the calendar counts as lying beyond `end`
+      (the code lets the `OverflowError` escape when `end` is in the first or last month of the calendar);
+    * Badi `_months_between`: counting backwards from a date in Ayyam-i-Ha starts at month 19, as `_add_months`
+      does (the code starts at month 18 and returns one month too few).
+  `_towards_zero_division` on caller-controlled amounts is `pyTdiv` (`!dom` beyond 10^27); on day numbers and
+  nanosecond differences of values inside the calendars it is `Int.tdiv` (operands below 10^21).
+-/
+import PyodaModel.Calendar
 
 namespace Pyoda.DateArith
+open Pyoda Pyoda.Calendar
 
-def handle (_toks : List String) : Option String := none
+abbrev Ymd := Int × Int × Int
+
+inductive Family where
+  | regular
+  | hebrew (scriptural : Bool)
+  | badi
+  deriving DecidableEq, Repr
+
+def familyOf (ord : Nat) : Family :=
+  if ord = 4 then .hebrew false else if ord = 5 then .hebrew true else if ord = 18 then .badi else .regular
+
+/-! ## days and weeks: `_FixedLengthDatePeriodField` -/
+
+/-- `calculator._get_year_month_day(year=…, day_of_year=…)` -/
+def ofYearDay (c : Calc) (y doy : Int) : R Ymd :=
+  match c.splitR y doy with
+  | .ok md => .ok (y, md.1, md.2)
+  | .error e => .error e
+
+/-- `local_date._days_since_epoch` -/
+def daysOf (c : Calc) (p : Ymd) : R Int := daysOfYmdRaw c p.1 p.2.1 p.2.2
+
+/-- the two fast paths of `add` (|days_to_add| < 300): same month, else same or adjacent year by day of year -/
+def fastPath (c : Calc) (p : Ymd) (k : Int) : R Ymd :=
+  let y := p.1
+  let m := p.2.1
+  let d := p.2.2
+  if 1 ≤ d + k ∧ d + k ≤ c.dim y m then .ok (y, m, d + k)
+  else
+    let ndoy := c.toMonth y m + d + k
+    if ndoy < 1 then
+      match c.lenR (y - 1) with
+      | .error e => .error e
+      | .ok l =>
+        if y - 1 < c.minYear then .error .overflowError else ofYearDay c (y - 1) (ndoy + l)
+    else
+      match c.lenR y with
+      | .error e => .error e
+      | .ok l =>
+        if ndoy > l then
+          (if y + 1 > c.maxYear then .error .overflowError else ofYearDay c (y + 1) (ndoy - l))
+        else ofYearDay c y ndoy
+
+/-- the general path: `LocalDate._ctor(days_since_epoch=local_date._days_since_epoch + days_to_add, calendar=…)` -/
+def slowPath (c : Calc) (p : Ymd) (k : Int) : R Ymd :=
+  match daysOf c p with
+  | .error e => .error e
+  | .ok d0 => fromDays c (d0 + k)
+
+/-- `_FixedLengthDatePeriodField(unit_days).add(local_date, value)` -/
+def addFixed (c : Calc) (unitDays : Int) (p : Ymd) (value : Int) : R Ymd :=
+  if value = 0 then .ok p
+  else if -300 < value * unitDays ∧ value * unitDays < 300 then fastPath c p (value * unitDays)
+  else slowPath c p (value * unitDays)
+
+/-- `Period._internal_days_between` -/
+def daysBetween (c : Calc) (s e : Ymd) : R Int :=
+  if s = e then .ok 0
+  else
+    match daysOf c s, daysOf c e with
+    | .ok a, .ok b => .ok (b - a)
+    | .error x, _ => .error x
+    | _, .error x => .error x
+
+/-- `_FixedLengthDatePeriodField(unit_days).units_between` -/
+def fixedBetween (c : Calc) (unitDays : Int) (s e : Ymd) : R Int :=
+  match daysBetween c s e with
+  | .ok n => .ok (Int.tdiv n unitDays)
+  | .error x => .error x
+
+/-! ## months -/
+
+def rangeOrOverflow (c : Calc) (y : Int) (r : Ymd) : R Ymd :=
+  if y < c.minYear ∨ y > c.maxYear then .error .overflowError else .ok r
+
+/-- year and month reached by `_RegularYearMonthDayCalculator._add_months` (literal branches) -/
+def regularTarget (M y m months q : Int) : Int × Int :=
+  let mtu := m - 1 + months
+  if mtu ≥ 0 then (y + q, Int.fmod mtu M + 1)
+  else
+    let a := -mtu
+    let rem0 := Int.fmod a M
+    let rem := if rem0 = 0 then M else rem0
+    let mu := M - rem + 1
+    (if mu = 1 then y + q - 1 + 1 else y + q - 1, mu)
+
+/-- `_RegularYearMonthDayCalculator._add_months` with `M` months per year -/
+def addMonthsRegular (c : Calc) (M : Int) (p : Ymd) (months : Int) : R Ymd :=
+  if months = 0 then .ok p
+  else
+    match pyTdiv (p.2.1 - 1 + months) M with
+    | .error e => .error e
+    | .ok q =>
+      let t := regularTarget M p.1 p.2.1 months q
+      rangeOrOverflow c t.1 (t.1, t.2, min p.2.2 (c.dim t.1 t.2))
+
+/-- the shared shape of the regular and Badi `_months_between`: a month-index difference corrected by one -/
+def correctByOne (c : Calc) (s e simple : Ymd) (diff : Int) : Int :=
+  if cmpYmd c s e ≤ 0 then (if cmpYmd c simple e ≤ 0 then diff else diff - 1)
+  else (if cmpYmd c simple e ≥ 0 then diff else diff + 1)
+
+def monthsBetweenRegular (c : Calc) (M : Int) (s e : Ymd) : R Int :=
+  let diff := (e.1 - s.1) * M + e.2.1 - s.2.1
+  match addMonthsRegular c M s diff with
+  | .error x => .error x
+  | .ok simple => .ok (correctByOne c s e simple diff)
+
+/-! ### Hebrew -/
+namespace Hebrew
+
+def monthsIn (y : Int) : Int := if Heb.isLeap y then 13 else 12
+def toCivil (scr : Bool) (y m : Int) : Int := if scr then Heb.scripturalToCivil y m else m
+def fromCivil (scr : Bool) (y m : Int) : Int := if scr then Heb.civilToScriptural y m else m
+def toScriptural (scr : Bool) (y m : Int) : Int := if scr then m else Heb.civilToScriptural y m
+def fromScriptural (scr : Bool) (y m : Int) : Int := if scr then m else Heb.scripturalToCivil y m
+
+/-- `while months >= months_in_year(year): months -= months_in_year(year); year += 1` -/
+def fwdLoop : Nat → Int → Int → R (Int × Int)
+  | 0, _, _ => .error .decimalDomain
+  | f+1, months, year =>
+    if months ≥ monthsIn year then fwdLoop f (months - monthsIn year) (year + 1) else .ok (months, year)
+
+/-- `while months + months_in_year(year) <= 0: months += months_in_year(year); year -= 1` -/
+def backLoop : Nat → Int → Int → R (Int × Int)
+  | 0, _, _ => .error .decimalDomain
+  | f+1, months, year =>
+    if months + monthsIn year ≤ 0 then backLoop f (months + monthsIn year) (year - 1) else .ok (months, year)
+
+def loopFuel : Nat := 32
+
+/-- (year, civil month) reached from civil month `civ` of `year0` after the cycle shift -/
+def walk (year0 civ months : Int) : R (Int × Int) :=
+  if months > 0 then
+    match fwdLoop loopFuel (months + (civ - 1)) year0 with
+    | .ok r => .ok (r.2, r.1 + 1)
+    | .error e => .error e
+  else
+    match backLoop loopFuel (months - (monthsIn year0 - civ)) year0 with
+    | .ok r => .ok (r.2, monthsIn r.2 + r.1)
+    | .error e => .error e
+
+/-- `_HebrewYearMonthDayCalculator._add_months` -/
+def addMonths (scr : Bool) (c : Calc) (p : Ymd) (months : Int) : R Ymd :=
+  if months = 0 then .ok p
+  else
+    match pyTdiv months 235 with
+    | .error e => .error e
+    | .ok q =>
+      match walk (p.1 + q * 19) (toCivil scr p.1 p.2.1) (csharpMod months 235) with
+      | .error e => .error e
+      | .ok ym =>
+        let mcal := fromCivil scr ym.1 ym.2
+        rangeOrOverflow c ym.1 (ym.1, mcal, min (c.dim ym.1 mcal) p.2.2)
+
+/-- `compare(_add_months(start, diff), end)`; intended: a probe that leaves the calendar lies beyond `end` -/
+def probe (scr : Bool) (c : Calc) (s e : Ymd) (diff : Int) : R Int :=
+  match addMonths scr c s diff with
+  | .ok r => .ok (cmpYmd c r e)
+  | .error .overflowError => .ok (if diff > 0 then 1 else -1)
+  | .error x => .error x
+
+/-- `while cond(probe diff): diff += step` -/
+def seek (scr : Bool) (c : Calc) (s e : Ymd) (cond : Int → Bool) (step : Int) : Nat → Int → R Int
+  | 0, _ => .error .decimalDomain
+  | f+1, diff =>
+    match probe scr c s e diff with
+    | .error x => .error x
+    | .ok v => if cond v then seek scr c s e cond step f (diff + step) else .ok diff
+
+def seekFuel : Nat := 16
+
+/-- the estimate `int(end_total_months - start_total_months)` (computed in floating point by the code; the loops
+    that follow make the result independent of it) -/
+def estimate (scr : Bool) (s e : Ymd) : Int :=
+  Int.tdiv ((toCivil scr e.1 e.2.1 * 19 + e.1 * 235) - (toCivil scr s.1 s.2.1 * 19 + s.1 * 235)) 19
+
+/-- `_HebrewYearMonthDayCalculator._months_between` -/
+def monthsBetween (scr : Bool) (c : Calc) (s e : Ymd) : R Int :=
+  let diff := estimate scr s e
+  if cmpYmd c s e ≤ 0 then
+    match seek scr c s e (fun v => decide (v > 0)) (-1) seekFuel diff with
+    | .error x => .error x
+    | .ok d1 =>
+      match seek scr c s e (fun v => decide (v ≤ 0)) 1 seekFuel d1 with
+      | .error x => .error x
+      | .ok d2 => .ok (d2 - 1)
+  else
+    match seek scr c s e (fun v => decide (v < 0)) 1 seekFuel diff with
+    | .error x => .error x
+    | .ok d1 =>
+      match seek scr c s e (fun v => decide (v ≥ 0)) (-1) seekFuel d1 with
+      | .error x => .error x
+      | .ok d2 => .ok (d2 + 1)
+
+/-- `_HebrewYearMonthDayCalculator._set_year` -/
+def setYear (scr : Bool) (p : Ymd) (year : Int) : Ymd :=
+  let sm0 := toScriptural scr p.1 p.2.1
+  let sm1 :=
+    if sm0 = 13 ∧ ¬ Heb.isLeap year then 12
+    else if sm0 = 12 ∧ Heb.isLeap year ∧ ¬ Heb.isLeap p.1 then 13
+    else sm0
+  if p.2.2 = 30 ∧ (sm1 = 8 ∨ sm1 = 9 ∨ sm1 = 12) ∧ Heb.dimS year sm1 ≠ 30 then
+    (year, fromScriptural scr year (if sm1 + 1 = 13 then 1 else sm1 + 1), 1)
+  else (year, fromScriptural scr year sm1, p.2.2)
+
+end Hebrew
+
+/-! ### Badi -/
+namespace BadiArith
+
+def inAyyamiHa (p : Ymd) : Bool := p.2.1 == 18 && decide (p.2.2 > 19)
+
+/-- `_BadiYearMonthDayCalculator._add_months` (intended: zero-based month index) -/
+def addMonths (c : Calc) (p : Ymd) (months : Int) : R Ymd :=
+  if months = 0 then .ok p
+  else
+    let nd := if inAyyamiHa p then p.2.2 - 19 else p.2.2
+    let tm := if inAyyamiHa p ∧ months < 0 then p.2.1 + 1 else p.2.1
+    let z := tm - 1 + months
+    let ny := p.1 + Int.fdiv z 19
+    rangeOrOverflow c ny (ny, Int.fmod z 19 + 1, nd)
+
+/-- `_BadiYearMonthDayCalculator._months_between` (intended: backwards from Ayyam-i-Ha counts from month 19) -/
+def monthsBetween (c : Calc) (s e : Ymd) : R Int :=
+  let sm := if inAyyamiHa s ∧ cmpYmd c e s < 0 then s.2.1 + 1 else s.2.1
+  let diff := (e.1 - s.1) * 19 + e.2.1 - sm
+  match addMonths c s diff with
+  | .error x => .error x
+  | .ok simple => .ok (correctByOne c s e simple diff)
+
+/-- `_BadiYearMonthDayCalculator._set_year` -/
+def setYear (_c : Calc) (p : Ymd) (year : Int) : R Ymd :=
+  match checkRange year 1 1000 with
+  | .error e => .error e
+  | .ok _ =>
+    if inAyyamiHa p then .ok (year, p.2.1, min p.2.2 (19 + Badi.ayyamiHa year)) else .ok (year, p.2.1, p.2.2)
+
+end BadiArith
+
+/-! ### per-calendar dispatch -/
+
+structure Cal where
+  ord : Nat
+  c : Calc
+  fam : Family
+
+def Cal.ofOrd (ord : Nat) : Option Cal := (calcOf ord).map fun c => ⟨ord, c, familyOf ord⟩
+
+def Cal.validate (k : Cal) (p : Ymd) : R Unit := validateOrd k.ord k.c p.1 p.2.1 p.2.2
+
+/-- `calculator._add_months` -/
+def addMonths (k : Cal) (p : Ymd) (months : Int) : R Ymd :=
+  match k.fam with
+  | .regular => addMonthsRegular k.c (k.c.months p.1) p months
+  | .hebrew scr => Hebrew.addMonths scr k.c p months
+  | .badi => BadiArith.addMonths k.c p months
+
+/-- `calculator._months_between` -/
+def monthsBetween (k : Cal) (s e : Ymd) : R Int :=
+  match k.fam with
+  | .regular => monthsBetweenRegular k.c (k.c.months s.1) s e
+  | .hebrew scr => Hebrew.monthsBetween scr k.c s e
+  | .badi => BadiArith.monthsBetween k.c s e
+
+/-- `_RegularYearMonthDayCalculator._set_year` -/
+def setYearRegular (c : Calc) (p : Ymd) (year : Int) : Ymd := (year, p.2.1, min p.2.2 (c.dim year p.2.1))
+
+/-- `calculator._set_year` -/
+def setYear (k : Cal) (p : Ymd) (year : Int) : R Ymd :=
+  match k.fam with
+  | .regular => .ok (setYearRegular k.c p year)
+  | .hebrew scr => .ok (Hebrew.setYear scr p year)
+  | .badi => BadiArith.setYear k.c p year
+
+/-- `_YearsPeriodField.add` -/
+def addYears (k : Cal) (p : Ymd) (value : Int) : R Ymd :=
+  if value = 0 then .ok p
+  else
+    match checkRange value (k.c.minYear - p.1) (k.c.maxYear - p.1) with
+    | .error e => .error e
+    | .ok _ => setYear k p (p.1 + value)
+
+/-- `_YearsPeriodField.units_between` -/
+def yearsBetween (k : Cal) (s e : Ymd) : R Int :=
+  let diff := e.1 - s.1
+  match addYears k s diff with
+  | .error x => .error x
+  | .ok simple => .ok (correctByOne k.c s e simple diff)
+
+/-! ## `Period.between` -/
+
+/-- one date unit as `Period.__date_components_between` uses it -/
+structure Field where
+  add : Ymd → Int → R Ymd
+  between : Ymd → Ymd → R Int
+
+def yearsField (k : Cal) : Field := ⟨addYears k, yearsBetween k⟩
+def monthsField (k : Cal) : Field := ⟨addMonths k, monthsBetween k⟩
+def weeksField (k : Cal) : Field := ⟨addFixed k.c 7, fixedBetween k.c 7⟩
+def daysField (k : Cal) : Field := ⟨addFixed k.c 1, fixedBetween k.c 1⟩
+
+def bit (mask : Nat) (i : Nat) : Bool := mask.testBit i
+
+/-- the inner `units_between` of `__date_components_between`: (value, advanced start) -/
+def stepField (f : Field) (on : Bool) (s e : Ymd) : R (Int × Ymd) :=
+  if !on then .ok (0, s)
+  else
+    match f.between s e with
+    | .error x => .error x
+    | .ok v =>
+      match f.add s v with
+      | .error x => .error x
+      | .ok s' => .ok (v, s')
+
+structure DateParts where
+  rest : Ymd
+  years : Int
+  months : Int
+  weeks : Int
+  days : Int
+
+/-- `Period.__date_components_between` -/
+def dateComponents (fy fm fw fd : Field) (mask : Nat) (s e : Ymd) : R DateParts :=
+  match stepField fy (bit mask 0) s e with
+  | .error x => .error x
+  | .ok (y, s1) =>
+    match stepField fm (bit mask 1) s1 e with
+    | .error x => .error x
+    | .ok (m, s2) =>
+      match stepField fw (bit mask 2) s2 e with
+      | .error x => .error x
+      | .ok (w, s3) =>
+        match stepField fd (bit mask 3) s3 e with
+        | .error x => .error x
+        | .ok (d, s4) => .ok ⟨s4, y, m, w, d⟩
+
+def unitNanos : List Int := [NPH, NPMin, NPS, NPMs, NPT, 1]
+
+/-- the inner `units_between` of `__time_components_between` -/
+def stepTime (on : Bool) (total unit : Int) : Int × Int :=
+  if !on then (0, total) else (Int.tdiv total unit, total - Int.tdiv total unit * unit)
+
+/-- `Period.__time_components_between`: hours … nanoseconds and what is left -/
+def timeComponents (mask : Nat) (total : Int) : List Int × Int :=
+  let h := stepTime (bit mask 4) total NPH
+  let mi := stepTime (bit mask 5) h.2 NPMin
+  let s := stepTime (bit mask 6) mi.2 NPS
+  let ms := stepTime (bit mask 7) s.2 NPMs
+  let t := stepTime (bit mask 8) ms.2 NPT
+  let n := stepTime (bit mask 9) t.2 1
+  ([h.1, mi.1, s.1, ms.1, t.1, n.1], n.2)
+
+def zero10 : List Int := [0, 0, 0, 0, 0, 0, 0, 0, 0, 0]
+
+def single (i : Nat) (v : Int) : List Int := (List.range 10).map fun j => if j = i then v else 0
+
+def dateMask : Nat := 15
+def timeMask : Nat := 1008
+
+/-- the three `_check_argument` calls on the units -/
+def checkUnits (mask : Nat) (forbidden : Nat) : R Unit :=
+  if mask &&& forbidden ≠ 0 ∨ mask = 0 ∨ mask ≥ 1024 then .error .valueError else .ok ()
+
+def fieldsOf (k : Cal) : Field × Field × Field × Field := (yearsField k, monthsField k, weeksField k, daysField k)
+
+/-- `Period.between(LocalDate, LocalDate, units)` -/
+def betweenDates (k : Cal) (mask : Nat) (s e : Ymd) : R (List Int) :=
+  match checkUnits mask timeMask with
+  | .error x => .error x
+  | .ok _ =>
+    if s = e then .ok zero10
+    else if mask = 1 then (yearsBetween k s e).map (single 0)
+    else if mask = 2 then (monthsBetween k s e).map (single 1)
+    else if mask = 4 then (fixedBetween k.c 7 s e).map (single 2)
+    else if mask = 8 then (fixedBetween k.c 1 s e).map (single 3)
+    else
+      match dateComponents (yearsField k) (monthsField k) (weeksField k) (daysField k) mask s e with
+      | .error x => .error x
+      | .ok r => .ok [r.years, r.months, r.weeks, r.days, 0, 0, 0, 0, 0, 0]
+
+/-- `Period.between(YearMonth, YearMonth, units)` (intended: MONTHS is reported as months) -/
+def betweenYearMonths (k : Cal) (mask : Nat) (s e : Int × Int) : R (List Int) :=
+  match checkUnits mask (1023 - 3) with
+  | .error x => .error x
+  | .ok _ =>
+    let sd : Ymd := (s.1, s.2, 1)
+    let ed : Ymd := (e.1, e.2, 1)
+    if s = e then .ok zero10
+    else if mask = 1 then (yearsBetween k sd ed).map (single 0)
+    else if mask = 2 then (monthsBetween k sd ed).map (single 1)
+    else
+      match dateComponents (yearsField k) (monthsField k) (weeksField k) (daysField k) mask sd ed with
+      | .error x => .error x
+      | .ok r => .ok [r.years, r.months, 0, 0, 0, 0, 0, 0, 0, 0]
+
+/-- `Period.between(LocalTime, LocalTime, units)` -/
+def betweenTimes (mask : Nat) (s e : Int) : R (List Int) :=
+  match checkUnits mask dateMask with
+  | .error x => .error x
+  | .ok _ => .ok ([0, 0, 0, 0] ++ (timeComponents mask (e - s)).1)
+
+/-- LocalDateTime ordering: date by the calendar's comparison, then time of day -/
+def cmpDateTime (c : Calc) (s : Ymd) (sn : Int) (e : Ymd) (en : Int) : Int :=
+  if cmpYmd c s e ≠ 0 then cmpYmd c s e else sn - en
+
+/-- the end date adjusted by the times of day -/
+def adjustedEnd (c : Calc) (s : Ymd) (sn : Int) (e : Ymd) (en : Int) : R Ymd :=
+  if cmpDateTime c s sn e en < 0 then (if sn > en then addFixed c 1 e (-1) else .ok e)
+  else if cmpDateTime c s sn e en > 0 ∧ sn < en then addFixed c 1 e 1
+  else .ok e
+
+/-- nanoseconds from (date a, time an) to (date b, time bn) on the local time line -/
+def nanosBetween (c : Calc) (a : Ymd) (an : Int) (b : Ymd) (bn : Int) : R Int :=
+  match daysOf c a, daysOf c b with
+  | .ok da, .ok db => .ok ((db - da) * NPD + (bn - an))
+  | .error x, _ => .error x
+  | _, .error x => .error x
+
+/-- `Period.between(LocalDateTime, LocalDateTime, units)` -/
+def betweenDateTimes (k : Cal) (mask : Nat) (s : Ymd) (sn : Int) (e : Ymd) (en : Int) : R (List Int) :=
+  if mask = 0 ∨ mask ≥ 1024 then .error .valueError
+  else if s = e ∧ sn = en then .ok zero10
+  else
+    match adjustedEnd k.c s sn e en with
+    | .error x => .error x
+    | .ok ed =>
+      if mask = 1 then (yearsBetween k s ed).map (single 0)
+      else if mask = 2 then (monthsBetween k s ed).map (single 1)
+      else if mask = 4 then (fixedBetween k.c 7 s ed).map (single 2)
+      else if mask = 8 then (daysBetween k.c s ed).map (single 3)
+      else if mask = 16 ∨ mask = 32 ∨ mask = 64 ∨ mask = 128 ∨ mask = 256 ∨ mask = 512 then
+        (nanosBetween k.c s sn e en).map fun t => [0, 0, 0, 0] ++ (timeComponents mask t).1
+      else
+        let parts : R DateParts :=
+          if mask &&& dateMask ≠ 0 then
+            dateComponents (yearsField k) (monthsField k) (weeksField k) (daysField k) mask s ed
+          else .ok ⟨s, 0, 0, 0, 0⟩
+        match parts with
+        | .error x => .error x
+        | .ok r =>
+          if mask &&& timeMask = 0 then .ok [r.years, r.months, r.weeks, r.days, 0, 0, 0, 0, 0, 0]
+          else
+            match nanosBetween k.c r.rest sn e en with
+            | .error x => .error x
+            | .ok t => .ok ([r.years, r.months, r.weeks, r.days] ++ (timeComponents mask t).1)
+
+/-! ## `Period.normalize`, `Period.to_duration` -/
+
+structure Period where
+  years : Int
+  months : Int
+  weeks : Int
+  days : Int
+  hours : Int
+  minutes : Int
+  seconds : Int
+  milliseconds : Int
+  ticks : Int
+  nanoseconds : Int
+  deriving DecidableEq, Repr
+
+/-- `Period.__total_nanoseconds` -/
+def Period.total (p : Period) : Int :=
+  p.nanoseconds + p.ticks * NPT + p.milliseconds * NPMs + p.seconds * NPS + p.minutes * NPMin + p.hours * NPH
+    + p.days * NPD + p.weeks * (7 * NPD)
+
+def Period.toList (p : Period) : List Int :=
+  [p.years, p.months, p.weeks, p.days, p.hours, p.minutes, p.seconds, p.milliseconds, p.ticks, p.nanoseconds]
+
+/-- `Period.normalize` -/
+def Period.normalize (p : Period) : R Period :=
+  let t := p.total
+  match pyTdiv t NPD, pyTdiv t NPH, pyTdiv t NPMin, pyTdiv t NPS, pyTdiv t NPMs with
+  | .ok d, .ok h, .ok mi, .ok s, .ok ms =>
+    .ok ⟨p.years, p.months, 0, d, csharpMod h 24, csharpMod mi 60, csharpMod s 60, csharpMod ms 1000, 0, csharpMod t NPMs⟩
+  | .error x, _, _, _, _ => .error x
+  | _, .error x, _, _, _ => .error x
+  | _, _, .error x, _, _ => .error x
+  | _, _, _, .error x, _ => .error x
+  | _, _, _, _, .error x => .error x
+
+def durMinNanos : Int := -(1073741824 * NPD)
+def durMaxNanos : Int := 1073741824 * NPD - 1
+
+/-- `Period.to_duration`: (floor days, nanosecond of day) of `Duration.from_nanoseconds(total)` -/
+def Period.toDuration (p : Period) : R (Int × Int) :=
+  if p.months ≠ 0 ∨ p.years ≠ 0 then .error .runtimeError
+  else
+    match checkRange p.total durMinNanos durMaxNanos with
+    | .error x => .error x
+    | .ok _ => .ok (p.total / NPD, p.total % NPD)
+
+/-! ## line protocol -/
+
+def showYmd (r : R Ymd) : String := showR (fun p => showInts [p.1, p.2.1, p.2.2]) r
+
+def withCal (tok : String) (f : Cal → Option String) : Option String := do
+  let n ← tok.toNat?
+  let k ← Cal.ofOrd n
+  f k
+
+def validated (k : Cal) (p : Ymd) (f : R α) : R α :=
+  match k.validate p with
+  | .error e => .error e
+  | .ok _ => f
+
+def domGuard (n : Int) (r : String) : String := if n ≤ -decBound ∨ n ≥ decBound then "!dom" else r
+
+def periodOf : List Int → Option Period
+  | [a, b, c, d, e, f, g, h, i, j] => some ⟨a, b, c, d, e, f, g, h, i, j⟩
+  | _ => none
+
+def handle (toks : List String) : Option String :=
+  match toks with
+  | ["date.plus", unit, c, y, m, d, n] => withCal c fun k => do
+      let v ← parseInts? [y, m, d, n]
+      match v with
+      | [y, m, d, n] =>
+        let p : Ymd := (y, m, d)
+        if unit = "days" then some (showYmd (validated k p (addFixed k.c 1 p n)))
+        else if unit = "weeks" then some (showYmd (validated k p (addFixed k.c 7 p n)))
+        else if unit = "months" then some (domGuard n (showYmd (validated k p (addMonths k p n))))
+        else if unit = "years" then some (showYmd (validated k p (addYears k p n)))
+        else none
+      | _ => none
+  | ["ym.plusmonths", c, y, m, n] => withCal c fun k => do
+      let v ← parseInts? [y, m, n]
+      match v with
+      | [y, m, n] =>
+        let p : Ymd := (y, m, 1)
+        some (domGuard n (showR (fun (r : Ymd) => showInts [r.1, r.2.1]) (validated k p (addMonths k p n))))
+      | _ => none
+  | ["date.daysbetween", c, y1, m1, d1, y2, m2, d2] => withCal c fun k => do
+      let v ← parseInts? [y1, m1, d1, y2, m2, d2]
+      match v with
+      | [y1, m1, d1, y2, m2, d2] =>
+        some (showR toString (validated k (y1, m1, d1) (validated k (y2, m2, d2) (daysBetween k.c (y1, m1, d1) (y2, m2, d2)))))
+      | _ => none
+  | ["date.plusperiod", c, y, m, d, py, pm, pw, pd] => withCal c fun k => do
+      let v ← parseInts? [y, m, d, py, pm, pw, pd]
+      match v with
+      | [y, m, d, py, pm, pw, pd] =>
+        let p : Ymd := (y, m, d)
+        some (showYmd (validated k p (do
+          let a ← addYears k p py
+          let b ← addMonths k a pm
+          let c' ← addFixed k.c 7 b pw
+          addFixed k.c 1 c' pd)))
+      | _ => none
+  | ["period.between", "d", mask, c, y1, m1, d1, y2, m2, d2] => withCal c fun k => do
+      let mask ← mask.toNat?
+      let v ← parseInts? [y1, m1, d1, y2, m2, d2]
+      match v with
+      | [y1, m1, d1, y2, m2, d2] =>
+        some (showR showInts (validated k (y1, m1, d1) (validated k (y2, m2, d2) (betweenDates k mask (y1, m1, d1) (y2, m2, d2)))))
+      | _ => none
+  | ["period.between", "dt", mask, c, y1, m1, d1, n1, y2, m2, d2, n2] => withCal c fun k => do
+      let mask ← mask.toNat?
+      let v ← parseInts? [y1, m1, d1, n1, y2, m2, d2, n2]
+      match v with
+      | [y1, m1, d1, n1, y2, m2, d2, n2] =>
+        if n1 < 0 ∨ n1 ≥ NPD ∨ n2 < 0 ∨ n2 ≥ NPD then some "!valueError" else
+        some (showR showInts (validated k (y1, m1, d1) (validated k (y2, m2, d2)
+          (betweenDateTimes k mask (y1, m1, d1) n1 (y2, m2, d2) n2))))
+      | _ => none
+  | ["period.between", "t", mask, n1, n2] => do
+      let mask ← mask.toNat?
+      let n1 ← parseInt? n1
+      let n2 ← parseInt? n2
+      if n1 < 0 ∨ n1 ≥ NPD ∨ n2 < 0 ∨ n2 ≥ NPD then some "!valueError" else
+      some (showR showInts (betweenTimes mask n1 n2))
+  | ["period.between", "ym", mask, c, y1, m1, y2, m2] => withCal c fun k => do
+      let mask ← mask.toNat?
+      let v ← parseInts? [y1, m1, y2, m2]
+      match v with
+      | [y1, m1, y2, m2] =>
+        some (showR showInts (validated k (y1, m1, 1) (validated k (y2, m2, 1) (betweenYearMonths k mask (y1, m1) (y2, m2)))))
+      | _ => none
+  | "period.normalize" :: rest => do
+      let v ← parseInts? rest
+      let p ← periodOf v
+      some (showR (fun (q : Period) => showInts q.toList) p.normalize)
+  | "period.toduration" :: rest => do
+      let v ← parseInts? rest
+      let p ← periodOf v
+      some (showR (fun (r : Int × Int) => showInts [r.1, r.2]) p.toDuration)
+  | _ => none
 
 end Pyoda.DateArith
